@@ -217,9 +217,6 @@ Proof.
 Qed.
 
 (* ------------------------------------------------------------------ the events of one step *)
-Definition se_rx_evict (c : se_cfg) (tbl : list se_sess) : option se_sess :=
-  if (0 <? cf_max_idle c) && (cf_max_idle c <=? se_count_idle tbl) then se_oldest tbl else None.
-
 Definition se_new_events (c : se_cfg) (st : se_st) (op : se_op) : list se_ev :=
   match op with
   | OpRx key now =>
@@ -227,6 +224,15 @@ Definition se_new_events (c : se_cfg) (st : se_st) (op : se_op) : list se_ev :=
       | Some s => [SeRx key (ss_id s)]
       | None =>
           (match se_rx_evict c (st_tbl st) with
+           | Some o => [SeDel (ss_id o); SeFree (ss_id o)]
+           | None => []
+           end) ++ [SeNew (st_next st) key; SeRx key (st_next st)]
+      end
+  | OpRxV key now v =>
+      match se_find key (st_tbl st) with
+      | Some s => [SeRx key (ss_id s)]
+      | None =>
+          (match se_get v (st_tbl st) with
            | Some o => [SeDel (ss_id o); SeFree (ss_id o)]
            | None => []
            end) ++ [SeNew (st_next st) key; SeRx key (st_next st)]
@@ -240,9 +246,10 @@ Lemma se_step_log : forall c st op,
   st_log (se_step c st op) = st_log st ++ se_new_events c st op.
 Proof.
   intros c st op. destruct op; cbn [se_step se_new_events st_log]; try (rewrite app_nil_r; reflexivity).
-  - unfold se_rx, se_rx_evict. destruct (se_find key (st_tbl st)); cbn [st_log]; [reflexivity|].
-    destruct ((0 <? cf_max_idle c) && (cf_max_idle c <=? se_count_idle (st_tbl st)));
-      [destruct (se_oldest (st_tbl st))|]; reflexivity.
+  - unfold se_rx, se_rx_hit, se_rx_new. destruct (se_find key (st_tbl st)); cbn [st_log]; [reflexivity|].
+    destruct (se_rx_evict c (st_tbl st)); reflexivity.
+  - unfold se_rx_victim, se_rx_hit, se_rx_new. destruct (se_find key (st_tbl st)); cbn [st_log]; [reflexivity|].
+    destruct (se_get victim (st_tbl st)); reflexivity.
   - unfold se_prepare. rewrite se_scan_sweep. reflexivity.
   - unfold se_free_context. rewrite se_teardown_sweep. reflexivity.
 Qed.
@@ -506,24 +513,30 @@ Proof.
   apply se_mon_has_iff. apply Hiff. apply in_or_app. left. exact Hin.
 Qed.
 
-Lemma se_inv_rx : forall c st key now, st_alive st = true -> se_inv st -> se_inv (se_rx c st key now).
+Lemma se_inv_rx_hit : forall st s key now,
+  se_inv st -> se_find key (st_tbl st) = Some s -> se_inv (se_rx_hit st s key now).
 Proof.
-  intros c st key now Ha Hinv. unfold se_rx.
-  destruct (se_find key (st_tbl st)) as [s|] eqn:Hf.
-  - (* known peer *)
-    apply se_find_In in Hf. destruct Hf as [Hs Hk].
-    apply se_inv_log_rx.
-    + apply (se_inv_upd st (ss_id s) (se_set_last now)); auto.
-    + cbn [st_tbl]. rewrite (se_upd_map _ se_pair); [|reflexivity].
-      apply se_pair_in_map. eauto.
+  intros st s key now Hinv Hf. unfold se_rx_hit.
+  apply se_find_In in Hf. destruct Hf as [Hs Hk].
+  apply se_inv_log_rx.
+  - apply (se_inv_upd st (ss_id s) (se_set_last now)); auto.
+  - cbn [st_tbl]. rewrite (se_upd_map _ se_pair); [|reflexivity].
+    apply se_pair_in_map. eauto.
+Qed.
+
+Lemma se_inv_rx_new : forall st key now ev,
+  st_alive st = true -> se_inv st -> se_find key (st_tbl st) = None ->
+  (forall o, ev = Some o -> In o (st_tbl st)) ->
+  se_inv (se_rx_new st key now ev).
+Proof.
+  intros st key now ev Ha Hinv Hf Hev. unfold se_rx_new.
   - (* new peer *)
     destruct Hinv as (Hk & Hi & (Hn & Hr) & Hh & Hl & m & Hm & Hp & Hmx & ND & Hiff).
     assert (Hl0 := Hl Ha). rewrite Hl0 in Hiff. cbn [map] in Hiff.
     assert (Hiff0: forall a b, In (a, b) (mo_live m) <-> In (a, b) (map se_pair (st_tbl st))).
     { intros a b. rewrite Hiff, app_nil_r. tauto. }
     clear Hiff. rename Hiff0 into Hiff.
-    cbv zeta. fold (se_rx_evict c (st_tbl st)).
-    set (ev := se_rx_evict c (st_tbl st)).
+    cbv zeta.
     set (tbl1 := match ev with Some o => se_del (ss_id o) (st_tbl st) | None => st_tbl st end).
     set (ev1 := match ev with Some o => [SeDel (ss_id o); SeFree (ss_id o)] | None => [] end).
     assert (Hsub: forall s, In s tbl1 -> In s (st_tbl st)).
@@ -537,9 +550,7 @@ Proof.
                               mo_max m1 = mo_max m /\ NoDup (map fst (mo_live m1)) /\
                               (forall a b, In (a, b) (mo_live m1) <-> In (a, b) (map se_pair tbl1))).
     { unfold ev1, tbl1. destruct ev as [o|] eqn:Eev.
-      - unfold ev, se_rx_evict in Eev.
-        destruct ((0 <? cf_max_idle c) && (cf_max_idle c <=? se_count_idle (st_tbl st))); [|discriminate].
-        apply se_oldest_spec in Eev. destruct Eev as (Ho & _ & _).
+      - pose proof (Hev o eq_refl) as Ho.
         cbn [se_mon_run]. unfold se_mon_step at 1. rewrite Hp.
         assert (se_mon_has_sid (ss_id o) (mo_live m) = true) as ->.
         { apply se_mon_has_sid_iff. rewrite in_map_iff. exists (se_pair o). split; [reflexivity|].
@@ -638,7 +649,7 @@ Qed.
 
 (* every operation that is allowed keeps the invariant (or ends the history) *)
 Lemma se_step_inv : forall c st op,
-  se_inv st -> se_op_ok st op = true ->
+  se_inv st -> se_op_ok c st op = true ->
   match op with
   | OpFreeContext => se_dead_inv (se_step c st op)
   | _ => se_inv (se_step c st op) /\ st_alive (se_step c st op) = true
@@ -647,8 +658,15 @@ Proof.
   intros c st op Hinv Hok. unfold se_op_ok in Hok. apply andb_true_iff in Hok.
   destruct Hok as [Ha Hok].
   destruct op; cbn [se_step].
-  - split; [apply se_inv_rx; auto|]. unfold se_rx.
-    destruct (se_find key (st_tbl st)); cbn [st_alive]; auto.
+  - unfold se_rx. destruct (se_find key (st_tbl st)) as [s|] eqn:Hf.
+    + split; [apply se_inv_rx_hit; auto | exact Ha].
+    + split; [|exact Ha]. apply se_inv_rx_new; auto.
+      intros o Eo. unfold se_rx_evict in Eo.
+      destruct ((0 <? cf_max_idle c) && (cf_max_idle c <=? se_count_idle (st_tbl st))); [|discriminate].
+      apply se_oldest_spec in Eo. tauto.
+  - unfold se_rx_victim. destruct (se_find key (st_tbl st)) as [s|] eqn:Hf; [discriminate|].
+    split; [|exact Ha]. apply se_inv_rx_new; auto.
+    intros o Eo. apply se_get_In in Eo. tauto.
   - split; [|exact Ha]. apply se_inv_upd; auto.
     intros s _ E. cbn [se_add_holder ss_ref ss_holders length]. rewrite Nat2Z.inj_succ. lia.
   - split; [|exact Ha]. apply se_inv_upd; auto.
@@ -679,7 +697,7 @@ Lemma se_run_inv : forall c ops st st',
 Proof.
   induction ops as [|op r IH]; intros st st' Hinv Ha H; cbn [se_run] in H.
   - inversion H; subst. left; auto.
-  - destruct (se_op_ok st op) eqn:Hok; [|discriminate].
+  - destruct (se_op_ok c st op) eqn:Hok; [|discriminate].
     pose proof (se_step_inv c st op Hinv Hok) as Hs.
     destruct op;
       try (destruct Hs as [Hs1 Hs2]; apply (IH _ _ Hs1 Hs2 H); fail).
@@ -704,7 +722,7 @@ Lemma se_run_app : forall c ops1 ops2 st st',
 Proof.
   induction ops1 as [|op r IH]; intros ops2 st st' H; cbn [app se_run] in *.
   - eauto.
-  - destruct (se_op_ok st op); [|discriminate]. apply IH; auto.
+  - destruct (se_op_ok c st op); [|discriminate]. apply IH; auto.
 Qed.
 
 (* ================================================================== the monitor is sound
@@ -1111,7 +1129,7 @@ Qed.
 (* a session is released only when the reclaim rule says so; in particular never while it
    has a holder *)
 Theorem se_reclaim_rule : forall c ops st op sid,
-  se_run c se_init ops = Some st -> se_op_ok st op = true ->
+  se_run c se_init ops = Some st -> se_op_ok c st op = true ->
   In (SeFree sid) (se_new_events c st op) ->
   exists s, In s (st_tbl st) /\ ss_id s = sid /\
     match op with
@@ -1120,6 +1138,11 @@ Theorem se_reclaim_rule : forall c ops st op sid,
         (ss_last s + se_timeout_ticks c <= now \/ ss_state s = se_state_none)
     | OpRx key now =>
         se_find key (st_tbl st) = None /\
+        0 < cf_max_idle c <= se_count_idle (st_tbl st) /\
+        ss_ref s = 0 /\ ss_holders s = [] /\ ss_dq s = true /\
+        (forall s', In s' (st_tbl st) -> se_idle s' = true -> ss_last s <= ss_last s')
+    | OpRxV key now v =>
+        v = sid /\ se_find key (st_tbl st) = None /\
         0 < cf_max_idle c <= se_count_idle (st_tbl st) /\
         ss_ref s = 0 /\ ss_holders s = [] /\ ss_dq s = true /\
         (forall s', In s' (st_tbl st) -> se_idle s' = true -> ss_last s <= ss_last s')
@@ -1146,6 +1169,19 @@ Proof.
            ++ cbn [app In] in Hin. destruct Hin as [E|[E|[]]]; discriminate.
         -- cbn [app In] in Hin. destruct Hin as [E|[E|[]]]; discriminate.
       * cbn [app In] in Hin. destruct Hin as [E|[E|[]]]; discriminate.
+  - (* OpRxV *)
+    unfold se_op_ok in Hok. apply andb_true_iff in Hok. destruct Hok as [_ Hok].
+    destruct (se_find key (st_tbl st)) eqn:Hf; [discriminate|].
+    destruct (se_get victim (st_tbl st)) as [o|] eqn:Hg; [|discriminate].
+    cbn [app In] in Hin. destruct Hin as [E|[E|[E|[E|[]]]]]; try discriminate. inversion E; subst sid.
+    destruct (se_get_In _ _ _ Hg) as [Ho Eid].
+    unfold se_valid_victim in Hok. repeat rewrite andb_true_iff in Hok.
+    destruct Hok as [[[L1 L2] Hidle] Hall].
+    destruct (se_idle_true o Hidle) as [R0 Dq].
+    exists o. splits; auto; try lia.
+    + apply se_holders_nil; auto.
+    + intros s' Hs' Is'. rewrite forallb_forall in Hall. specialize (Hall s' Hs').
+      rewrite Is' in Hall. cbn [negb orb] in Hall. lia.
   - (* OpPrepare *)
     apply se_sweep_free_iff in Hin. destruct Hin as (s & Hs & E & Ex).
     exists s. splits; auto; unfold se_expired in Ex; apply andb_true_iff in Ex; destruct Ex as [Ei Et];
@@ -1263,7 +1299,7 @@ Proof.
 Qed.
 
 Theorem se_teardown_empty : forall c ops st,
-  se_run c se_init ops = Some st -> se_op_ok st OpFreeContext = true ->
+  se_run c se_init ops = Some st -> se_op_ok c st OpFreeContext = true ->
   let st' := se_step c st OpFreeContext in
   st_tbl st' = [] /\ st_alive st' = false /\
   (forall s, In s (st_leaked st') ->
@@ -1390,4 +1426,32 @@ Proof.
   intros c ops st H. split.
   - apply se_log_ok_sound. eapply se_run_log_ok; eauto.
   - intros s1 s2. eapply se_table_injective; eauto.
+Qed.
+
+(* the session the code evicts (first of the oldest idle ones in iteration order) is one of the
+   victims the property allows; OpRxV with that victim is the same step *)
+Theorem se_evict_is_valid : forall c tbl o,
+  se_rx_evict c tbl = Some o -> se_valid_victim c tbl o = true.
+Proof.
+  intros c tbl o H. unfold se_rx_evict in H. unfold se_valid_victim.
+  destruct ((0 <? cf_max_idle c) && (cf_max_idle c <=? se_count_idle tbl)) eqn:E; [|discriminate].
+  apply se_oldest_spec in H. destruct H as (Hin & Hidle & Hmin).
+  cbn [andb]. rewrite Hidle. cbn [andb]. apply forallb_forall. intros s Hs.
+  destruct (se_idle s) eqn:Is; cbn [negb orb]; [|reflexivity].
+  specialize (Hmin s Hs Is). lia.
+Qed.
+
+Theorem se_rx_victim_same : forall c st key now o,
+  NoDup (map ss_id (st_tbl st)) ->
+  se_find key (st_tbl st) = None -> se_rx_evict c (st_tbl st) = Some o ->
+  se_step c st (OpRxV key now (ss_id o)) = se_step c st (OpRx key now).
+Proof.
+  intros c st key now o ND Hf He. cbn [se_step]. unfold se_rx_victim, se_rx. rewrite Hf, He.
+  assert (Ho: In o (st_tbl st)).
+  { unfold se_rx_evict in He.
+    destruct ((0 <? cf_max_idle c) && (cf_max_idle c <=? se_count_idle (st_tbl st))); [|discriminate].
+    apply se_oldest_spec in He. tauto. }
+  destruct (se_get_some_of_In (ss_id o) (st_tbl st) o Ho eq_refl) as (o' & G). rewrite G.
+  destruct (se_get_In _ _ _ G) as [Ho' E].
+  rewrite (se_nodup_id_unique (st_tbl st) o' o ND Ho' Ho E). reflexivity.
 Qed.
